@@ -61,7 +61,7 @@ def judge(ctx, lb, item):
 def trunc_corpus(ctx, rnd, lb):
     out = []
     q = ctx.quick()
-    n_synth, n_lb, n_other = (6, 3, 3) if q else (80, 35, 35)
+    n_synth, n_lb, n_other = (6, 3, 3) if q else (40, 16, 16)
     for i in range(n_synth):
         data, plain, o = dcorpus.synth_valid(rnd, nstreams=rnd.choice([1, 2, 3]), trailing=rnd.choice([b'', b'', b'junk']))
         if len(data) < 1500:
@@ -107,7 +107,7 @@ def run(ctx):
     ctx.exhaustive = True
     ctx.extra['exhaustive_scope'] = 'every truncation length of each truncation-corpus file; other inputs are sampled'
     for kind in defects.DEFECTS:
-        for i in range(12 if q else 300):
+        for i in range(12 if q else 120):
             try:
                 data, k = defects.make(rnd, kind)
             except core.HarnessError:
@@ -127,9 +127,9 @@ def run(ctx):
             bases.append(d)
     for d in bases:
         v, info, _ = ora.refbz(d, want_out=False)
-        for m, what in defects.field_mutants(rnd, d, info, 25 if q else 400):
+        for m, what in defects.field_mutants(rnd, d, info, 25 if q else 160):
             items.append((m, 'mutant:' + what, rnd.random() < 0.1, rnd.choice([1, 2, 4])))
-        for _ in range(15 if q else 300):
+        for _ in range(15 if q else 120):
             items.append((bs.byte_mutate(rnd, d), 'mutant:byte', rnd.random() < 0.1, rnd.choice([1, 2, 4])))
     core.pmap(lambda it: judge(ctx, lb, it), items)
     ctx.assumptions = ['an input is "not a valid bzip2 file" when both refbz and libbz2 reject it']
